@@ -13,6 +13,10 @@
 //  4. cli.QueryDisplay in group / single / proto / shortproto display, fed by
 //     the same server.
 //
+//  5. the real gnmi_collector process (collentry.go): manager receive path,
+//     the collector's own closures, refresh goroutines and Subscribe server,
+//     fed by scripted TLS targets; judged by the process staying alive.
+//
 // Every call runs under recover(); the children of vlib catch what recover
 // cannot see (panics on goroutines the code under test starts). Oracle (2): a
 // rejected notification leaves the cache content intact.
@@ -39,16 +43,18 @@ type modeSpec struct {
 }
 
 var modes = []modeSpec{
-	{"cache-history", 3200, 45000, modeCacheHistory},               // x 20-50 calls
-	{"cache-matrix", 1200, 15000, modeCacheMatrix},                 // x 3 messages x 6 states + refreshes
-	{"cache-mutation", 1300, 22000, modeCacheMutation},             // x 60-120 mutants
-	{"subscribe-structured", 1300, 20000, modeSubscribeStructured}, // x 8 sessions
-	{"subscribe-mutation", 1000, 15000, modeSubscribeMutation},     // x 12 sessions
-	{"once-rejected-storm", 320, 2400, modeOnceRejectedStorm},      // x ~1000 concurrent sessions
-	{"client-structured", 700, 9000, modeClientStructured(false)},  // x 8 streams
-	{"client-mutation", 500, 8000, modeClientMutation(false)},      // x 8 streams
-	{"cli-structured", 1100, 15000, modeClientStructured(true)},    // x 8 streams
-	{"cli-mutation", 800, 12000, modeClientMutation(true)},         // x 8 streams
+	{"cache-history", 3200, 45000, modeCacheHistory},                       // x 20-50 calls
+	{"cache-matrix", 1200, 15000, modeCacheMatrix},                         // x 3 messages x 6 states + refreshes
+	{"cache-mutation", 1300, 22000, modeCacheMutation},                     // x 60-120 mutants
+	{"subscribe-structured", 1300, 20000, modeSubscribeStructured},         // x 8 sessions
+	{"subscribe-mutation", 1000, 15000, modeSubscribeMutation},             // x 12 sessions
+	{"once-rejected-storm", 320, 2400, modeOnceRejectedStorm},              // x ~1000 concurrent sessions
+	{"client-structured", 700, 9000, modeClientStructured(false)},          // x 8 streams
+	{"client-mutation", 500, 8000, modeClientMutation(false)},              // x 8 streams
+	{"cli-structured", 1100, 15000, modeClientStructured(true)},            // x 8 streams
+	{"cli-mutation", 800, 12000, modeClientMutation(true)},                 // x 8 streams
+	{"collector-process-structured", 24, 480, modeCollectorProcess(false)}, // x 2-5 targets x 40-400 responses at the real binary
+	{"collector-process-mutation", 24, 480, modeCollectorProcess(true)},
 }
 
 func body(r *vlib.Run) {
@@ -89,16 +95,17 @@ func main() {
 			"state x message (each message against the cache states empty / populated / after Reset / type-confused meta leaf stored / latency windows configured / collector wiring with live subscribers); " +
 			"byte-level mutation (field duplication, drop, reorder, renumber, retype, scalar and length edits, bit flips, truncation, splice; mutants kept only if they unmarshal; per-trial corpus " +
 			"grows by mutants whose (entry point, outcome class, structural fingerprint) is new). Every call runs under recover(); a rejected notification is followed by a comparison of the whole cache content " +
-			"with its content before the call. A case is distinct non-trivial when the entry point ran to a verdict (returned or panicked) on at least one wire-valid message: hashed by entry point, state / display case and the wire bytes of its messages.",
+			"with its content before the call. Process mode: the gnmi_collector binary built from the working tree is streamed at by 2-5 scripted TLS targets (structured and mutated responses, first stream broken by the target, refresh periods 20/30 ms, one STREAM and one POLL subscriber for '*') and must be alive when every target's sentinel is visible to a fresh ONCE query. A case is distinct non-trivial when the entry point ran to a verdict (returned or panicked) on at least one wire-valid message: hashed by entry point, state / display case and the wire bytes of its messages.",
 		Assumptions: []string{
 			"a message a peer can send = a protobuf message that survives marshal -> unmarshal (Go-only shapes such as nil list members are excluded); HTTP/2 / gRPC framing violations are grpc-go's business",
-			"the collector's stamping of prefix target / origin (package main of cmd/gnmi_collector, not importable) is replicated in the harness line by line",
+			"the collector's stamping of prefix target / origin (package main of cmd/gnmi_collector, not importable) is replicated in the harness line by line for the in-process modes; the collector-process modes run the real binary and judge only that the process stays alive (a sentinel under an origin of its own marks that everything before it was consumed)",
 			"oracle (2) compares the content visible through Cache.Query(target, [*]) immediately before and after a rejected message; for a multi-part notification only leaves addressed by none of its parts are required to be unchanged (index per model.CacheIndex / model.MatchQ), unless every part was rejected",
 			"a panic on a goroutine started by the code under test cannot be recovered: it ends the child process and is reported by the parent as crash:<function> with the saved current case as witness",
 			"resource exhaustion (multi-GiB messages) is out of scope; watchdogs (60 s) only ever yield 'inconclusive'",
 		},
 		QuickShards: 8, ThoroughShards: 16,
 		MinDistinctQuick: 20000, MinDistinctThorough: 300000,
-		Body: body,
+		Prepare: prepareCollector,
+		Body:    body,
 	})
 }
